@@ -19,6 +19,7 @@ ReqFails(e) ==
   Tag(Stamped(e.cfg, e.method, e.giventx, e.givenzero, e.seen), "X.client-stamp")
   \o Tag(Transport(e.cfg, e.seen) /\ e.seen.ct = AppJson, "X.client-transport")
   \o Tag(e.seen.rest = e.givenrest, "X.client-payload")
+  \o Tag(e.seen.rest = e.givenrest /\ e.seenopt = e.givenopt, "C17.struct")   \* a request payload survives the client's JSON path: method fields, tokens, VSExtension
   \o Tag(/\ (MustFail(e.script) => e.ret.err = "error")
          /\ (MustSucceed(e.script) => e.ret.err = "")
          /\ (Decodable(e.script) => /\ e.ret.code = e.script.code /\ e.ret.txid = e.seen.txid /\ e.ret.msgtype = AnsType(e.method)
